@@ -16,7 +16,7 @@ RULE = ("every spec with <=5 atoms (6 for two-unit graphs) of all four universes
         "placeholders and stereo changes x EVERY subset S given as list, tuple, set, frozenset, dict keys view, one-shot "
         "generator, and with repeated atoms (padded to exactly n entries, doubled, iterator with repeats): subgraph(S) == induced labelled subgraph of the reference model; connected_components() == union-find "
         "partition; compose over every ordered pair of pieces (S1,S2) covering the atoms (3^n covers, overlaps allowed; the pieces themselves must come out unchanged) and over "
-        "the component subgraphs in every order == labelled union (later wins) with coherent neighbour sets; every such cover again with all descriptors and stereo changes of the second piece replaced by another isomer over the same atoms, in both orders of the pieces (the later piece wins on shared centres); SN2-type specs whose broken / formed / fleeting descriptors of one centre or bond name different atom sets; composing the "
+        "the component subgraphs in every order == labelled union (later wins) with coherent neighbour sets; every such cover again with all descriptors and stereo changes of the second piece replaced by another isomer over the same atoms, in both orders of the pieces (the later piece wins on shared centres); SN2-type specs whose broken / formed / fleeting descriptors of one centre or bond name different atom sets; centres / stereo bonds with a bonded neighbour the descriptor does not mention; composing the "
         "component subgraphs reproduces the graph; large graphs (a chain of n atoms with scrambled ids + ring + isolated atoms + a "
         "stereo/reaction unit, n around 127/128, 255/256, 300; thorough also 512, 1100): components, node components, compose of the "
         "component subgraphs, a 2/3 induced subgraph; two / three identical fragments (isomorphic pieces with their own descriptors and "
